@@ -75,8 +75,56 @@ def run_patch_family(ctx, depth, pid="C08"):
     ctx.families[pid + "/patch"] = {"templates": n, "tie": "monitor on the real getPatch / ApplyRevision / Match (codec level is modelled, not proved)"}
 
 
+def run_rollback_conflicts(ctx, depth):
+    """a rollback (the template is reverted to one an older revision records) whose renumbering write meets one Conflict: the
+    retry must still renumber the re-used revision above all others (monitor; compared with the model like every fault case)"""
+    from props import gen
+    rng = ctx.rng
+    n = 30 if depth == "quick" else 400
+    scs = []
+    tries = 0
+    while len(scs) < n and tries < 50 * n:
+        tries += 1
+        sc = gen.gen_history(rng)
+        st = sc["api"].get("set")
+        if st is None or sc["cache"].get("set") is None:
+            continue
+        own = [r for r in sc["api"]["revs"] if r["owner"] is not None and r["owner"]["uid"] == st["uid"] and r["match"] and not r["labels_nil"]]
+        top = max([r["revision"] for r in sc["api"]["revs"]] + [0])
+        old = [r for r in own if r["revision"] < top and sum(1 for q in sc["api"]["revs"] if q["tmpl"] == r["tmpl"]) == 1]
+        if not old:
+            continue
+        r = rng.choice(old)
+        for w in (sc["api"], sc["cache"]):
+            w["set"]["tmpl"] = r["tmpl"]
+            w["set"]["deleting"] = False
+            ann = dict(w["set"].get("ann") or {})
+            ann.pop("paused-reconcile", None)
+            w["set"]["ann"] = ann or None
+        sc["ops"] = [{"op": "reconcile", "faults": [{"on": "update controllerrevisions %s" % r["name"], "kind": "conflict"}]}]
+        scs.append(sc)
+    outs = core.run_harness_parallel("reconcile", scs, shards=16)
+    hit = 0
+    for sc, out in zip(scs, outs):
+        obs = out["steps"][0]
+        ctx.evaluations += 1
+        ctx.count("family:rollback-conflict")
+        if any(c.get("fault") == "conflict" for c in obs["calls"]):
+            hit += 1
+        sn = monitors.Snap(sc, obs)
+        sn.final = out.get("final")
+        bad = monitor(sn, True) if sn.ok else []
+        if bad:
+            ctx.violations.append({"family": "C08/rollback_conflict", "input": sc, "observed": obs, "clauses": bad,
+                                   "signature": {"kind": "C08", "clause": bad[0][:40]}})
+        ctx.nontriv([sc["api"]["set"]["tmpl"], sc["ops"]])
+    nt, nm = rc.correspond_proj(ctx, "C08/rollback_conflict", scs, outs, "recon_check_proj %s true" % PI, "recon_model_proj %s" % PI)
+    ctx.families["C08/rollback_conflict"] = {"scenarios": len(scs), "with_the_conflict_hit": hit, "compared_in_coq": nt, "model_mismatches": nm}
+
+
 def run(ctx, depth):
     rc.run_reconcile_property(ctx, depth, "C08", PI, monitor, tweak=tweak)
+    run_rollback_conflicts(ctx, depth)
     run_patch_family(ctx, depth)
 
 
